@@ -141,6 +141,10 @@ def run(ctx):
         prev = v if isinstance(v, int) else prev
     for key, what in _constants(P, C):
         ctx.violation(key, what, {'kind': 'const', 'key': key})
+    nv, vbad = validator_boundaries()
+    evals += nv
+    for key, what, h in vbad:
+        ctx.violation(key, what, {'kind': 'validator'})
     ctx.cov.update({
         'evaluations': evals + nb + 12,
         'distinct_nontrivial': sum(r[2] for r in res),
@@ -152,6 +156,45 @@ def run(ctx):
         'samples': [{'h': h, 'subsidy': ref(h)} for h in (0, INTERVAL - 1, INTERVAL, 29 * INTERVAL, 30 * INTERVAL)],
         'exhaustive': True, 'heights_enumerated': evals, 'boundaries': nb, 'sum_observed': total,
     })
+
+
+def validator_boundaries():
+    """the reward bound enforced by block validation follows the schedule at the REAL era boundaries: on a (fabricated,
+    unvalidated) parent at height b-1 / b / b+1 a reward of exactly subsidy(height) passes and one unit more is refused"""
+    from skepticoin import consensus as C
+    from skepticoin.coinstate import CoinState
+    from skepticoin.datatypes import Block, BlockHeader, BlockSummary, PowEvidence, Transaction, Input, Output, OutputReference
+    from skepticoin.signing import CoinbaseData, SECP256k1PublicKey
+    from skepticoin.genesis import genesis_block_data
+    pk = SECP256k1PublicKey(b'\x07' * 64)
+    gen = Block.deserialize(genesis_block_data)
+    bad = []
+    n = 0
+
+    def blk(height, prev, value):
+        cb = Transaction([Input(OutputReference(b'\x00' * 32, 0), CoinbaseData(height, b''))], [Output(value, pk)])
+        s = BlockSummary(height, prev, cb.hash(), 1_700_000_000 + height % 1000, b'\xff' * 32, 0)
+        return Block(BlockHeader(s, PowEvidence(b'\x01' * 32, b'\x02' * 32, b'\x03' * 32)), [cb])
+    zero = CoinState.zero()
+    for e in list(range(1, 32)) + [63, 64, 65]:
+        for d in (-1, 0, 1):
+            h = e * INTERVAL + d
+            if h - 1 > 2**32 - 1:
+                continue
+            parent = blk(h - 1, gen.hash(), 1)
+            cs = zero.add_block_no_validation(parent)
+            for extra, expect_ok in ((0, True), (1, False)):
+                n += 1
+                cand = blk(h, parent.hash(), ref(h) + extra)
+                try:
+                    C.validate_coinbase_transaction_in_coinstate(cand.transactions[0], cand, cs)
+                    ok = True
+                except Exception:
+                    ok = False
+                if ok != expect_ok and len(bad) < 6:
+                    bad.append(('validator-reward-bound', "at height %d a reward of subsidy(%d)%s = %d is %s by the validator" % (
+                        h, h, '+1' if extra else '', ref(h) + extra, 'accepted' if ok else 'refused'), h))
+    return n, bad
 
 
 def _constants(P, C):
@@ -210,6 +253,9 @@ def replay(data, ctx):
                     out.append(('subsidy-nonzero-after-zero', 'rises at %d' % h))
             except Exception:
                 pass
+    elif data['kind'] == 'validator':
+        nv, vbad = validator_boundaries()
+        out += [(k, w) for k, w, h in vbad]
     elif data['kind'] == 'pair':
         for a in (data['a'] if isinstance(data['a'], list) else [data['a']]):
             C.get_block_subsidy(a)
